@@ -1,4 +1,4 @@
-package main
+package c17
 
 // C17 — project name and project environment follow the documented precedence.
 //
